@@ -297,6 +297,43 @@ impl Prop for C16 {
         faults.extend(nodesim::gen_freeze_faults(seed, n, last + 5000));
         faults.extend(nodesim::gen_flip_faults(seed));
         nodesim::add_restarts(seed, &mut faults);
+        let mut two_conn = false;
+        {
+            // two overlapping connections to a peer that stops answering (both applications dial each
+            // other by address at the same instant), operations whose substreams are being opened on them, then
+            // one (or both) of the connections is lost (independent stream of the seed)
+            let mut r = Rng::fork(seed, "c16-two-connections");
+            if r.chance(1, 8) {
+                two_conn = true;
+                let (a, b) = (1u64, 2u64);
+                ops.push(json!({"op": "connect", "to": b, "at_ms": 150, "node": a, "c": 100}));
+                ops.push(json!({"op": "connect", "to": a, "at_ms": 150 + r.below(3), "node": b, "c": 101}));
+                let t1 = 1_500 + r.below(1_500);
+                faults.push(json!({"at_ms": t1, "kind": "freeze", "node": b, "heal_after_ms": *r.pick(&[3_000u64, 20_000])}));
+                for k in 0..r.range(1, 3) {
+                    let key = *r.pick(&keys);
+                    let op = match r.below(5) {
+                        0 => json!({"op": "find_node", "target": b}),
+                        1 => json!({"op": "put_to", "key": key, "peers": [b], "quorum": gen_quorum(&mut r), "update_local": false}),
+                        2 => json!({"op": "get", "key": key, "quorum": gen_quorum(&mut r)}),
+                        3 => json!({"op": "provide", "key": key, "quorum": gen_quorum(&mut r)}),
+                        _ => json!({"op": "get_providers", "key": key}),
+                    };
+                    let mut op = op;
+                    op["at_ms"] = json!(t1 + 30 + k);
+                    op["node"] = json!(a);
+                    op["c"] = json!(102 + k);
+                    ops.push(op);
+                }
+                let t2 = t1 + 60 + r.below(300);
+                faults.push(json!({"at_ms": t2, "kind": "reset_pair", "a": a, "b": b, "k": r.below(2)}));
+                if r.chance(1, 3) {
+                    faults.push(json!({"at_ms": t2 + r.below(500), "kind": "reset_pair", "a": a, "b": b, "k": 0}));
+                }
+                ops.sort_by_key(|o| o["at_ms"].as_u64().unwrap_or(0));
+                faults.sort_by_key(|f| f["at_ms"].as_u64().unwrap_or(0));
+            }
+        }
         // ghost n+1 is, in a third of the runs, a live peer speaking the Kademlia protocol badly
         let rogue = {
             let mut r = Rng::fork(seed, "c16-rogue");
@@ -305,6 +342,10 @@ impl Prop for C16 {
         let mut knobs = gen_node_knobs(&mut rng);
         if rng.chance(1, 6) {
             knobs["max_out"] = json!(rng.range(1, 2));
+        }
+        if two_conn && knobs["keep_alive_ms"].as_u64().unwrap_or(5000) < 5000 {
+            // the two connections must still be there when the peer stalls
+            knobs["keep_alive_ms"] = json!(5000);
         }
         // which ghosts each node knows about
         json!({
@@ -340,6 +381,7 @@ impl Prop for C16 {
             nodesim::install_static_faults(&net, &faults);
             let log: Log = Arc::new(Mutex::new(Vec::new()));
             let mut drv: Vec<Option<UnboundedSender<Cmd>>> = vec![None];
+            let mut app_tx: Vec<Option<UnboundedSender<Multiaddr>>> = vec![None];
             let topology = case["topology"].as_str().unwrap_or("clique").to_string();
             let ghost_addr = |g: usize| -> Vec<Multiaddr> {
                 let p = peer_id(seed, g);
@@ -379,13 +421,26 @@ impl Prop for C16 {
                     }
                 };
                 let h2 = handle.clone();
+                let (atx, mut arx) = unbounded_channel::<Multiaddr>();
+                app_tx.push(Some(atx));
                 handle.spawn(i, "litep2p-event-loop", async move {
+                    let mut open = true;
                     loop {
-                        match l.next_event().await {
-                            Some(Litep2pEvent::ConnectionEstablished { peer, .. }) => h2.event(format!("n{i} established {}", node::short(&peer))),
-                            Some(Litep2pEvent::ConnectionClosed { peer, .. }) => h2.event(format!("n{i} closed {}", node::short(&peer))),
-                            Some(_) => {}
-                            None => break,
+                        tokio::select! {
+                            biased;
+                            a = arx.recv(), if open => match a {
+                                None => open = false,
+                                Some(a) => {
+                                    let r = l.dial_address(a.clone()).await;
+                                    h2.event(format!("n{i} dial_address({a}) -> {r:?}"));
+                                }
+                            },
+                            ev = l.next_event() => match ev {
+                                Some(Litep2pEvent::ConnectionEstablished { peer, .. }) => h2.event(format!("n{i} established {}", node::short(&peer))),
+                                Some(Litep2pEvent::ConnectionClosed { peer, .. }) => h2.event(format!("n{i} closed {}", node::short(&peer))),
+                                Some(_) => {}
+                                None => break,
+                            }
                         }
                     }
                 });
@@ -466,6 +521,14 @@ impl Prop for C16 {
                         tokio::time::sleep_until(start + Duration::from_millis(o["at_ms"].as_u64().unwrap_or(0))).await;
                         let i = o["node"].as_u64().unwrap_or(1) as usize;
                         if i == 0 || i > n || dead.lock().unwrap().contains_key(&i) {
+                            continue;
+                        }
+                        if o["op"] == "connect" {
+                            // application-level dial by address (two of them crossing yield two
+                            // overlapping connections; Kademlia's own dials are by peer id)
+                            if let Some(Some(tx)) = app_tx.get(i) {
+                                let _ = tx.send(full_addr(seed, (o["to"].as_u64().unwrap_or(1) as usize).clamp(1, n)));
+                            }
                             continue;
                         }
                         let Some(tx) = &drv[i] else { continue };
